@@ -82,6 +82,25 @@ class _Rename(ast.NodeTransformer):
             return ast.copy_location(copy.deepcopy(r), n)
         return n
 
+    def visit_FunctionDef(self, n):
+        # a function defined inside: its own name follows the mapping, its parameters shadow it
+        if isinstance(self.m.get(n.name), str):
+            n.name = self.m[n.name]
+        a = n.args
+        own = {x.arg for x in a.posonlyargs + a.args + a.kwonlyargs} | ({a.vararg.arg} if a.vararg else set()) | ({a.kwarg.arg} if a.kwarg else set())
+        inner = _Rename({k: v for k, v in self.m.items() if k not in own})
+        n.body = [inner.visit(st) for st in n.body]
+        n.decorator_list = [self.visit(d) for d in n.decorator_list]
+        a.defaults = [self.visit(d) for d in a.defaults]
+        a.kw_defaults = [self.visit(d) if d is not None else None for d in a.kw_defaults]
+        return n
+
+    def visit_Lambda(self, n):
+        a = n.args
+        own = {x.arg for x in a.posonlyargs + a.args + a.kwonlyargs} | ({a.vararg.arg} if a.vararg else set()) | ({a.kwarg.arg} if a.kwarg else set())
+        n.body = _Rename({k: v for k, v in self.m.items() if k not in own}).visit(n.body)
+        return n
+
 
 def _as_load(t):
     t = copy.deepcopy(t)
@@ -135,6 +154,9 @@ def _expand(model: Model, f: Func, call: ast.Call, counter: list):
     for nm in stored:
         if nm not in params:
             mapping[nm] = nm + suffix
+    for n in ast.walk(g.node):
+        if isinstance(n, ast.FunctionDef) and n is not g.node and n.name not in params:
+            mapping[n.name] = n.name + suffix          # local helper functions are locals too
     body = [_Rename(mapping).visit(copy.deepcopy(s)) for s in g.node.body]
     # drop the docstring
     if body and isinstance(body[0], ast.Expr) and isinstance(body[0].value, ast.Constant) and isinstance(body[0].value.value, str):
@@ -370,14 +392,46 @@ def _inline_block(model: Model, f: Func, stmts: list, depth: int, counter: list)
     return out
 
 
+_QUIET = {"tn", "torch", "np", "numpy", "math", "len", "int", "float", "abs", "min", "max"}
+
+
+def _linear_in_params(expr, params) -> bool:
+    """every parameter occurs exactly once in the returned expression, in parameter order, and whatever else the expression calls are numeric
+    library functions: arguments with calls in them may then be put in place - each is still evaluated once, in the same order"""
+    occ = [x.id for x in ast.walk(expr) if isinstance(x, ast.Name) and x.id in params]
+    order = []
+
+    def go(n):
+        if isinstance(n, ast.Name) and n.id in params:
+            order.append(n.id)
+        for c in ast.iter_child_nodes(n):
+            go(c)
+    go(expr)
+    if sorted(occ) != sorted(params) or order != list(params):
+        return False
+    for c in ast.walk(expr):
+        if isinstance(c, ast.Call):
+            r = c.func
+            while isinstance(r, ast.Attribute):
+                r = r.value
+            if not (isinstance(r, ast.Name) and r.id in _QUIET):
+                return False
+        if isinstance(c, (ast.Lambda, ast.ListComp, ast.GeneratorExp, ast.SetComp, ast.DictComp, ast.IfExp, ast.BoolOp)):
+            return False
+    return True
+
+
 def _inline_local_closures(node, counter):
     """`def one(*size): return tn.ones(size, dtype=dtype, device=device)` defined in the function's own body and called in it: each call
     is replaced by the returned expression with the arguments put in.  A closure reads its free variables when it is *called*, so the
     expression evaluated at the call site is the same computation.  Conditions: defined once at the top level of the body, never re-bound
     or passed around (every use is a call), one `return <expr>`, no decorator / default / keyword use, arguments free of calls."""
     cands = {}
-    for st in node.body:
-        if isinstance(st, ast.FunctionDef) and not st.decorator_list and not st.args.defaults and not st.args.kwonlyargs and not st.args.kwarg:
+    nested = [st for st in ast.walk(node) if isinstance(st, ast.FunctionDef) and st is not node]
+    inner_defs = {id(x) for st in nested for x in ast.walk(st) if x is not st and isinstance(x, ast.FunctionDef)}
+    for st in nested:
+        # (anywhere in the function's own blocks - an inlined helper brings its local helpers along -, but not inside another local function)
+        if id(st) not in inner_defs and not st.decorator_list and not st.args.defaults and not st.args.kwonlyargs and not st.args.kwarg:
             body = [x for x in st.body if not (isinstance(x, ast.Expr) and isinstance(x.value, ast.Constant) and isinstance(x.value.value, str))]
             if len(body) == 1 and isinstance(body[0], ast.Return) and body[0].value is not None:
                 cands[st.name] = (st, body[0].value)
@@ -406,9 +460,11 @@ def _inline_local_closures(node, counter):
             if isinstance(n.func, ast.Name) and n.func.id in cands:
                 st, expr = cands[n.func.id]
                 pos = [a.arg for a in st.args.posonlyargs + st.args.args]
-                if n.keywords or any(isinstance(a, ast.Starred) for a in n.args) or not all(_pure_arg(a) for a in n.args):
+                if n.keywords or any(isinstance(a, ast.Starred) for a in n.args):
                     return n
                 if len(n.args) < len(pos) or (len(n.args) > len(pos) and st.args.vararg is None):
+                    return n
+                if not all(_pure_arg(a) for a in n.args) and not _linear_in_params(expr, pos):
                     return n
                 bind = dict(zip(pos, n.args))
                 if st.args.vararg is not None:
@@ -423,12 +479,29 @@ def _inline_local_closures(node, counter):
 
         def visit_FunctionDef(s, n):
             return n if n.name in cands else s.generic_visit(n)
-    new_body = []
-    for st in node.body:
-        new_body.append(R().visit(st))
-    node.body = new_body
-    left = {n.id for n in ast.walk(node) if isinstance(n, ast.Name) and isinstance(n.ctx, ast.Load)}
-    node.body = [st for st in node.body if not (isinstance(st, ast.FunctionDef) and st.name in done and st.name not in left)] or [ast.Pass()]
+    for _ in range(3):           # a local helper may call another one
+        before = counter[0]
+        node.body = [R().visit(st) for st in node.body]
+        for nm in list(cands):
+            st, expr = cands[nm]
+            body = [x for x in st.body if not (isinstance(x, ast.Expr) and isinstance(x.value, ast.Constant) and isinstance(x.value.value, str))]
+            new_expr = R().visit(copy.deepcopy(body[0].value))
+            cands[nm] = (st, new_expr)
+        if counter[0] == before:
+            break
+    left = {n.id for n in ast.walk(node) if isinstance(n, ast.Name) and isinstance(n.ctx, ast.Load)
+            and not any(n in set(ast.walk(st)) for st, _ in cands.values())}
+
+    class Drop(ast.NodeTransformer):
+        def visit_FunctionDef(s, n):
+            if n is not node and n.name in done and n.name not in left:
+                return None
+            return s.generic_visit(n)
+    Drop().visit(node)
+    for blk in ast.walk(node):
+        for fld in ("body", "orelse", "finalbody"):
+            if isinstance(getattr(blk, fld, None), list) and fld == "body" and not getattr(blk, fld) and isinstance(blk, (ast.FunctionDef, ast.For, ast.While, ast.If, ast.With)):
+                setattr(blk, fld, [ast.Pass()])
 
 
 def inlined(model: Model, f: Func, depth: int = 2) -> Func:
@@ -440,6 +513,7 @@ def inlined(model: Model, f: Func, depth: int = 2) -> Func:
         counter = [0]
         _inline_local_closures(node, counter)
         node.body = _inline_block(model, f, node.body, depth, counter)
+        _inline_local_closures(node, counter)        # the local helpers of inlined helpers
         if counter[0] == 0:
             cache[key] = f
         else:
